@@ -417,3 +417,40 @@ M2('c15-cookie-error-broad-handler-swallows', 'C15', 'R17', [
 M('c15-etag-tests-first-char', 'C15', 'R18', HELP, "    if value[-1] != '\"':\n", "    if value[-0] != '\"':\n", also=('C09',))
 M('c15-etag-tests-index-0', 'C15', 'R18', HELP, "    if value[-1] != '\"':\n", "    if value[0] != '\"':\n", also=('C09',))
 M('c15-etag-wraps-when-quoted', 'C15', 'R18', HELP, "    if value[-1] != '\"':\n", "    if value[-1] == '\"':\n", also=('C09',))
+
+# ---- wave 9
+# s9-c15-1 (R12, readers): presence is decided by the key, never by the truth of the value read
+_GET = "        return self._headers.get(name, default)\n"
+M('c15-get-header-or-default', 'C15', 'R12', RESP, _GET, "        return self._headers.get(name) or default\n")
+M('c15-get-header-value-truth-local', 'C15', 'R12', RESP, _GET,
+  "        value = self._headers.get(name)\n        if not value:\n            return default\n        return value\n")
+M('c15-get-header-conditional-on-value', 'C15', 'R12', RESP, _GET,
+  "        return self._headers[name] if name in self._headers and self._headers[name] != '' else default\n")
+M('c15-delete-header-only-truthy-value', 'C15', 'R12', RESP, "        self._headers.pop(name, None)\n",
+  "        if self._headers.get(name):\n            del self._headers[name]\n")
+M('c15-property-getter-or-none', 'C15', 'R12', HELP,
+  "        try:\n            return self._headers[normalized_name]\n        except KeyError:\n            return None\n",
+  "        return self._headers.get(normalized_name) or None\n")
+
+# s9-c15-2 (R4, provenance): Domain / Path carry the parameter itself, in set_cookie and unset_cookie alike
+_PATH = "        if path:\n            self._cookies[name]['path'] = path\n"
+_DOMAIN = "        if domain:\n            self._cookies[name]['domain'] = domain\n"
+M2('c15-unset-cookie-path-trailing-slash-stripped', 'C15', 'R4',
+   [{'file': RESP, 'old': _PATH, 'new': "        if path:\n            self._cookies[name]['path'] = path.rstrip('/') or '/'\n", 'count': 2, 'occurrence': 1}])
+M2('c15-set-cookie-path-normalised-local', 'C15', 'R4',
+   [{'file': RESP, 'old': _PATH, 'new': "        if path:\n            path = path.rstrip('/') or '/'\n            self._cookies[name]['path'] = path\n",
+     'count': 2, 'occurrence': 0}])
+M2('c15-unset-cookie-domain-leading-dot-stripped', 'C15', 'R4',
+   [{'file': RESP, 'old': _DOMAIN, 'new': "        if domain:\n            self._cookies[name]['domain'] = domain.lstrip('.')\n", 'count': 2, 'occurrence': 1}])
+M2('c15-unset-cookie-path-constant', 'C15', 'R4',
+   [{'file': RESP, 'old': _PATH, 'new': "        if path:\n            self._cookies[name]['path'] = '/'\n", 'count': 2, 'occurrence': 1}])
+M2('c15-unset-cookie-path-written-for-empty', 'C15', 'R4',
+   [{'file': RESP, 'old': _PATH, 'new': "        if path is not None:\n            self._cookies[name]['path'] = path\n", 'count': 2, 'occurrence': 1}])
+
+# s9-c15-3 (R3): every appended raw Set-Cookie line is emitted, no filter over _extra_headers
+M('c15-wsgi-extra-filtered-by-jar-names', 'C15', 'R3', RESP, "            items += self._extra_headers\n",
+  "            cookies = self._cookies or ()\n            items += [\n                (n, v)\n                for n, v in self._extra_headers\n"
+  "                if v.partition('=')[0].strip() not in cookies\n            ]\n", also=('C06',))
+M('c15-asgi-extra-filtered-empty-values', 'C15', 'R3', ARESP,
+  "(n.encode('ascii'), v.encode('ascii')) for n, v in self._extra_headers\n",
+  "(n.encode('ascii'), v.encode('ascii')) for n, v in self._extra_headers if v\n", also=('C06',))
